@@ -32,8 +32,10 @@ class AbsFirst:
     def __init__(self, F, cg):
         self.F = F
         self.cg = cg
-        self.sanitizers = {'<%s>::_abs' % MEMFS, '<%s as %s>::abs' % (MEMFS, TR), '<%s>::abs' % STDFS, '<%s as %s>::abs' % (STDFS, TR),
-                           '<sys::fs::vfs::Vfs as %s>::abs' % TR}
+        import roles
+        r = roles.discover(F)
+        self.sanitizers = {r.get('memfs_abs', '<%s>::_abs' % MEMFS), '<%s as %s>::abs' % (MEMFS, TR), r.get('stdfs_abs', '<%s>::abs' % STDFS),
+                           '<%s as %s>::abs' % (STDFS, TR), '<sys::fs::vfs::Vfs as %s>::abs' % TR}
         self.raw_fields = set()      # (adt, field) holding an unresolved path
         self._findings = {}
         self._collect_raw_fields()
